@@ -322,6 +322,8 @@ impl QuerierWrapper {
     pub fn query<T>(&self, req: &QueryRequest) -> (r: Result<T, StdError>) ensures r == raw_answer::<T>(*self, *req) { unimplemented!() }
 }
 pub struct Deps<'a> { pub storage: &'a Storage, pub api: &'a Api, pub querier: QuerierWrapper }
+impl<'a> Clone for Deps<'a> { #[verifier::external_body] fn clone(&self) -> (r: Self) ensures r == *self { unimplemented!() } }
+impl<'a> Copy for Deps<'a> {}
 pub struct DepsMut<'a> { pub storage: &'a mut Storage, pub api: &'a Api, pub querier: QuerierWrapper }
 impl<'a> DepsMut<'a> {
     #[verifier::external_body]
